@@ -8,21 +8,9 @@ mod verif_kani {
 
     const MAXLEN: usize = 6;
 
-    // @HARNESS id=C08.rs.create_shards.slices tier=quick kind=Kb props=C08 bound="every buffer of 1..=6 symbolic bytes, E in 1..=3, parity in 0..=2, k = ceil(len/E)" timeout=900
     /// source shard i == buffer[i*E .. (i+1)*E] zero padded to E, followed by `parity` all-zero placeholders of E bytes
     /// (filled by reed-solomon-erasure `encode`), exactly k + parity shards, every shard exactly E bytes
-    #[cfg(kani)]
-    #[kani::proof]
-    #[kani::unwind(8)]
-    #[kani::stub(alloc::fmt::format, stub_format)]
-    #[kani::stub(crate::tools::error::FluteError::new, stub_flute_error_new)]
-    fn create_shards_slices() {
-        h_create_shards_slices(kani::any(), kani::any(), kani::any(), kani::any());
-    }
-    pub fn h_create_shards_slices(buf: [u8; MAXLEN], len: usize, e: usize, parity: usize) {
-        vk_assume!(len >= 1 && len <= MAXLEN); // an empty buffer never gets here, see h_create_shards_empty
-        vk_assume!(e >= 1 && e <= 3);
-        vk_assume!(parity <= 2);
+    fn check_slices(buf: [u8; MAXLEN], len: usize, e: usize, parity: usize) {
         let k = (len + e - 1) / e;
         let params = RSCodecParam { nb_source_symbols: k, nb_parity_symbols: parity, encoding_symbol_length: e };
         let buffer = &buf[..len];
@@ -46,30 +34,105 @@ mod verif_kani {
             }
             i += 1;
         }
-        vk_cover!(len == 6 && e == 3 && parity == 2);
-        vk_cover!(len == 5 && e == 3 && parity == 1); // padded last source symbol
-        vk_cover!(len == 1 && e == 3 && parity == 0);
     }
 
-    // @HARNESS id=C08.rs.create_shards.count_mismatch_is_error tier=quick kind=Kb props=C08 bound="every buffer of 1..=6 symbolic bytes, E in 1..=3, any announced k in 0..=7" timeout=900
+    // Lengths, E and parity are enumerated by concrete loops (the bytes stay symbolic): with symbolic len / E / parity
+    // CBMC passed 18 GB after 3 minutes.  An empty buffer never gets here, see new_rejects_zero_source_symbols.
+
+    // @HARNESS id=C08.rs.create_shards.slices_e1 tier=quick kind=Kb props=C08 bound="every buffer of 1..=6 symbolic bytes, E = 1, parity in 0..=2, k = ceil(len/E)" timeout=900
+    #[cfg(kani)]
+    #[kani::proof]
+    #[kani::unwind(9)]
+    #[kani::stub(alloc::fmt::format, stub_format)]
+    #[kani::stub(crate::tools::error::FluteError::new, stub_flute_error_new)]
+    fn create_shards_slices_e1() {
+        h_create_shards_slices_e1(kani::any());
+    }
+    pub fn h_create_shards_slices_e1(buf: [u8; MAXLEN]) {
+        let mut len = 1usize;
+        while len <= MAXLEN {
+            let mut parity = 0usize;
+            while parity <= 2 {
+                check_slices(buf, len, 1, parity);
+                parity += 1;
+            }
+            len += 1;
+        }
+        vk_cover!(buf[5] == 0xA5);
+    }
+
+    // @HARNESS id=C08.rs.create_shards.slices_e2 tier=quick kind=Kb props=C08 bound="every buffer of 1..=6 symbolic bytes, E = 2, parity in 0..=2, k = ceil(len/E)" timeout=900
+    #[cfg(kani)]
+    #[kani::proof]
+    #[kani::unwind(9)]
+    #[kani::stub(alloc::fmt::format, stub_format)]
+    #[kani::stub(crate::tools::error::FluteError::new, stub_flute_error_new)]
+    fn create_shards_slices_e2() {
+        h_create_shards_slices_e2(kani::any());
+    }
+    pub fn h_create_shards_slices_e2(buf: [u8; MAXLEN]) {
+        let mut len = 1usize;
+        while len <= MAXLEN {
+            let mut parity = 0usize;
+            while parity <= 2 {
+                check_slices(buf, len, 2, parity);
+                parity += 1;
+            }
+            len += 1;
+        }
+        vk_cover!(buf[5] == 0xA5);
+    }
+
+    // @HARNESS id=C08.rs.create_shards.slices_e3 tier=quick kind=Kb props=C08 bound="every buffer of 1..=6 symbolic bytes, E = 3, parity in 0..=2, k = ceil(len/E)" timeout=900
+    #[cfg(kani)]
+    #[kani::proof]
+    #[kani::unwind(9)]
+    #[kani::stub(alloc::fmt::format, stub_format)]
+    #[kani::stub(crate::tools::error::FluteError::new, stub_flute_error_new)]
+    fn create_shards_slices_e3() {
+        h_create_shards_slices_e3(kani::any());
+    }
+    pub fn h_create_shards_slices_e3(buf: [u8; MAXLEN]) {
+        let mut len = 1usize;
+        while len <= MAXLEN {
+            let mut parity = 0usize;
+            while parity <= 2 {
+                check_slices(buf, len, 3, parity);
+                parity += 1;
+            }
+            len += 1;
+        }
+        vk_cover!(buf[5] == 0xA5);
+    }
+
+    // @HARNESS id=C08.rs.create_shards.count_mismatch_is_error tier=quick kind=Kb props=C08 bound="every buffer of 1..=6 symbolic bytes, E in 1..=3, announced k in ceil(len/E)-1 ..= ceil(len/E)+1" timeout=900
     /// create_shards is Ok exactly when the announced number of source symbols is ceil(len/E)
     #[cfg(kani)]
     #[kani::proof]
-    #[kani::unwind(8)]
+    #[kani::unwind(9)]
     #[kani::stub(alloc::fmt::format, stub_format)]
     #[kani::stub(crate::tools::error::FluteError::new, stub_flute_error_new)]
     fn create_shards_count() {
-        h_create_shards_count(kani::any(), kani::any(), kani::any(), kani::any());
+        h_create_shards_count(kani::any());
     }
-    pub fn h_create_shards_count(buf: [u8; MAXLEN], len: usize, e: usize, k: usize) {
-        vk_assume!(len >= 1 && len <= MAXLEN);
-        vk_assume!(e >= 1 && e <= 3);
-        vk_assume!(k <= 7);
-        let params = RSCodecParam { nb_source_symbols: k, nb_parity_symbols: 1, encoding_symbol_length: e };
-        let r = params.create_shards(&buf[..len]);
-        assert!(r.is_ok() == (k == (len + e - 1) / e));
-        vk_cover!(r.is_ok());
-        vk_cover!(r.is_err());
+    pub fn h_create_shards_count(buf: [u8; MAXLEN]) {
+        let mut e = 1usize;
+        while e <= 3 {
+            let mut len = 1usize;
+            while len <= MAXLEN {
+                let want = (len + e - 1) / e;
+                let mut k = want - 1;
+                while k <= want + 1 {
+                    let params = RSCodecParam { nb_source_symbols: k, nb_parity_symbols: 1, encoding_symbol_length: e };
+                    let r = params.create_shards(&buf[..len]);
+                    assert!(r.is_ok() == (k == want));
+                    k += 1;
+                }
+                len += 1;
+            }
+            e += 1;
+        }
+        vk_cover!(buf[5] == 0xA5);
     }
 
     // @HARNESS id=C08.rs.new.rejects_zero_source_symbols tier=quick kind=Kb props=C08 bound="k = 0, parity in 0..=255, every E" timeout=900
